@@ -31,9 +31,15 @@ CHECKS = {
  "C11": (True, "exploration", "metamorphic byte-equality monitor over repeated / permuted / split / history-preceded / concurrent executions of the real compiler (rustfmt made unavailable); schedules: 2/4/8/16 native threads each compiling the whole shuffled input list, compared with a single-threaded reference",
          "Held on the executions observed: generated bytes and sorted warning strings are identical across repetition, every permutation of modules and of sources (<= 3 modules), all or k random permutations of assignments, one source vs one source per module, compilation after 1..3 other compilations on the same thread, and concurrent compilation on 2..16 threads, for grammar-generated sets (incl. value-import pairs aimed at the linker's import bookkeeping) and real-world modules.",
          "Trusted: String equality. Interleavings are whatever the OS scheduler produced in this run (not enumerated); the compiler has no shared mutable state by reading (DESIGN §1), Miri/TSan runs are not part of this revision's registered commands.", "DESIGN.md §4 C11"),
+ "C12": (True, "exploration", "metamorphic monitor (per-module block of the full-set compilation vs the block when compiled with the import closure / closure + random modules / every order) + state-invariant monitor on hook H4 (backend tagging/extensibility default = module header while generating) + reference model for use lines and module-qualified references",
+         "Held on the executions observed: for every module of 600+ generated sets of 2..5 modules with independently drawn defaults, imports of types and values, cyclic import graphs and module-qualified references, the module's block is byte-identical (token-normalised, doc-free) across all explored subsets and orders; H4 showed the backend default equal to the header for every generated module (and the overwrite mattering thousands of times); use lines import exactly the IMPORTS symbols plus documented associated types, none twice.",
+         "Trusted: hook H4, import-closure computation on the model. Several use lines for one sibling module are accepted (associated-type additions come as a line of their own); a symbol imported twice is not.", "DESIGN.md §4 C12"),
  "C13": (True, "exploration", "metamorphic monitor: two executions of the real compiler on a text and on its re-layout at one token boundary (13 white-space / comment forms); token boundaries from the harness's own X.680 tokenizer; outcome digests (status, warning count, doc-free token-normalised bindings) must be equal",
          "Held on the re-layouts executed: every token boundary of small grammar-generated inputs (exhaustive per input) and sampled boundaries of real-world modules, each with tab/LF/CRLF/blank runs/no separator (only where the tokens stay separable)/line comment (LF and CRLF)/inline comment/block comment (spaced, tight, nested, multi-line)/comments with quotes, braces, keywords and non-ASCII text.",
          "Trusted: harness tokenizer tok.rs (every transformed text is re-tokenised and must give the same token sequence, else the transformation is discarded); a sign directly before digits is kept with the number. Real-world files are used only if their single-space re-join reproduces the original outcome.", "DESIGN.md §4 C13"),
+ "C19": (True, "exploration", "metamorphic monitor: item-level diff of the syn projections of the same input compiled under two configurations that differ in exactly one option, along the edges of the configuration lattice; each coordinate has an allowance predicate",
+         "Held on the executions observed: 160 generated inputs x 48-point sub-lattice (quick) / 4000 x the full 192-point lattice (thorough); along every edge only the documented aspect changed: From impls exactly for alternatives with a payload type unique in their CHOICE, import lists -> wildcards for the same sibling modules, LazyLock <-> lazy_static with equal (name, type, initialiser), exactly the configured custom use lines in every module, only outer attributes of type items with the six required derives exactly once.",
+         "Trusted: syn projection, the allowance predicates in c19.rs. Payload-type uniqueness is judged on the generated payload tokens with module path and Box stripped. For opaque_open_types only 'no definition changes, nothing added when turning the flag on' is asserted.", "DESIGN.md §4 C19"),
  "C14": (True, "fault_enumeration", "reference-model monitor (X.680 §20 numbering) over the syn projection of real compiler output; exhaustive enumeration of the property's finite space + seeded random",
          "Every enumeration of the property's finite space (<=5 root x <=3 additions over {-1,0,1,2,5,identifier-only}) is compiled by the real compiler and every emitted discriminant is compared with the X.680 20.3-20.6 number; larger random enumerations are sampled. Exhaustive for the stated space, sampled beyond it.",
          "Trusted: the 40-line numbering model in harness/src/c14.rs, syn's parsing of discriminants. Illegal inputs (duplicate numbers, non-ascending additions) are not claims.", "DESIGN.md §4 C14"),
